@@ -355,7 +355,49 @@ def c16(ctx):
     })
 
 
-PROPS = {'C01': c01, 'C16': c16, 'C02': c02, 'C03': c03, 'C04': c04, 'C05': c05, 'C06': c06, 'C07': c07, 'C11': c11}
+def c18(ctx):
+    ctx.proofs(['PegVerif.Props.C18'])
+    T = ctx.T()
+    clix = go_tool(ctx, 'clix')
+    work = L.scratch('clix-')
+    model = os.path.join(work, 'model.txt')
+    with open(model, 'w') as fh:
+        subprocess.run([T.pegmodel, 'cli'], input='ALL\n', stdout=fh, text=True, check=True)
+    obs = os.path.join(work, 'observed.txt')
+    p = subprocess.run([clix, '-peg', T.peg, '-tier', ctx.tier, '-seed', str(ctx.seed), '-model', model, '-obs', obs],
+                       capture_output=True, text=True, timeout=7200)
+    summary = {}
+    for chunk in (p.stderr, p.stdout):
+        i = chunk.rfind('\n{')
+        try:
+            summary = json.loads(chunk[i + 1:] if i >= 0 else chunk)
+            break
+        except ValueError:
+            continue
+    nscen = sum(1 for _ in open(model))
+    nobs = sum(1 for _ in open(obs)) if os.path.exists(obs) else 0
+    if p.returncode == 1:
+        ctx.add('spec', 'T-cli', 'the peg binary behaves differently from the CLI model (for which exit 0 => complete parser is proved over the whole table): ' + p.stdout[-1200:],
+                {'clix_output': p.stdout[-6000:], 'rerun': 'harness/cmd/clix/check.sh %s %d' % (ctx.tier, ctx.seed)})
+    elif p.returncode != 0:
+        raise RuntimeError('clix failed (%d): %s' % (p.returncode, (p.stderr or p.stdout)[-1500:]))
+    samples = []
+    if os.path.exists(obs):
+        with open(obs) as fh:
+            for i, l in enumerate(fh):
+                if i % max(1, nobs // 4) == 0 and len(samples) < 4:
+                    samples.append(l.strip())
+    ctx.coverage.update({
+        'evaluations': nobs, 'distinct_nontrivial': nscen, 'exhaustive': True,
+        'rule': 'every abstract scenario of the finite table (source x grammar class x destination x strict x option set x mode) realised by >= %d concrete representatives '
+                '(different grammar texts, file names, relative/absolute paths, permission faults via an unprivileged uid, /dev/full, strace-injected close errors); '
+                'observed exit status, stderr non-empty, destination state (nothing / truncated / raw invalid / complete = parses as Go and equals the stdout-mode output); '
+                'non-trivial = distinct abstract scenarios' % (10 if ctx.tier == 'thorough' else 3),
+        'samples': samples, 'input_distribution': summary,
+    })
+
+
+PROPS = {'C01': c01, 'C16': c16, 'C18': c18, 'C02': c02, 'C03': c03, 'C04': c04, 'C05': c05, 'C06': c06, 'C07': c07, 'C11': c11}
 
 
 def replay(ctx, path):
